@@ -17,7 +17,8 @@ use std::fmt::Write;
 use std::time::Duration;
 
 const NS: [u64; 7] = [1, 2, 3, 4, 7, 32, 1028];
-const TS: [u64; 5] = [1, 3, 1_000, 2_500_000, 1_000_000_000];
+// widths incl. ones that are not whole microseconds / milliseconds
+const TS: [u64; 9] = [1, 3, 999, 1_000, 1_500, 2_500, 1_000_001, 2_500_000, 1_000_000_000];
 
 fn delta(r: &mut Rng, n: u64, t: u64, tie_heavy: bool) -> i128 {
     let year = n as i128 * t as i128;
@@ -119,6 +120,17 @@ pub fn gen(seed: u64, count: usize, thorough: bool, tie_heavy: bool) -> String {
             } else {
                 if r.chance(1, 3) {
                     writeln!(out, "peek").unwrap();
+                    // sometimes something happens between the peek and the fetch: the peeked event (or another
+                    // recent one) is cancelled, or an event is added in front of it
+                    if adds > 0 && r.chance(1, 3) {
+                        let k = adds - 1 - r.below(adds.min(3));
+                        writeln!(out, "cancel {}", vals[k as usize]).unwrap();
+                    } else if r.chance(1, 6) {
+                        val += 1;
+                        writeln!(out, "add {} {}", r.below(2) * t, val).unwrap();
+                        vals.push(val);
+                        adds += 1;
+                    }
                 }
                 writeln!(out, "fetch").unwrap();
             }
